@@ -22,7 +22,7 @@ pub struct Tol {
     /// attribute algebra (into_full, J↔Q, C↔M↔s): |Δ| ≤ alg·(|attr| + 1e-6)
     pub alg: f64,
     /// forward vs reference: |Δattr| ≤ κ·fwd·(|attr| + fwd_floor[attr]); C and M with the hue as
-    /// vectors; s through s² (floors in s² units)
+    /// vectors; s through α = s²(A_w+4)/(2500c)
     pub fwd: f64,
     /// UCS: |Δ| ≤ ucs·(|value| + 1) for J', M', a', b' and the values converted back
     pub ucs: f64,
@@ -30,8 +30,9 @@ pub struct Tol {
     pub white_j: f64,
 }
 pub const FWD_FLOOR_J: f64 = 1.0;
-pub const FWD_FLOOR_C: f64 = 60.0;
-pub const FWD_FLOOR_S2: f64 = 6000.0;
+pub const FWD_FLOOR_C: f64 = 80.0;
+/// floor of α = s²(A_w+4)/(2500c) = C/√(J/100), the quantity saturation is computed from
+pub const FWD_FLOOR_ALPHA: f64 = 100.0;
 /// beyond this cancellation the point counts as "on the boundary of the model's domain"
 pub const KAPPA_MAX: f64 = 50.0;
 
@@ -43,7 +44,7 @@ pub fn tol<T: Fl>() -> Tol {
     }
 }
 
-pub const TOL_NOTE: &str = "XYZ is relative to white Y = 1. Round trip: ‖ΔXYZ‖∞ ≤ κ·(rel·‖XYZ‖∞ + abs) with rel = 4e-5 (f32) / 1e-9 (f64) and an absolute floor 2e-9 / 1e-15: the error of x ↦ x^0.42 ↦ x^(1/0.42) is relative to the size of the colour, so near-black colours are held to a tolerance that scales with them plus a floor; κ = Σ|terms|/|Σ terms| of the achromatic response A and of the denominator of t (1 for all-positive cone responses, i.e. for every real colour near sRGB) accounts for cancellation when a cone response is negative; points with κ > 50 or outside the real-valued domain of the published equations (A ≤ 0 or denominator ≤ 0: imaginary stimuli of the XYZ cube) are only required not to panic. Attribute algebra (into_full, interconversion): relative 2e-5 / 1e-12 (multiplications, divisions and square roots only). Forward model vs reference: κ·1e-4 / κ·1e-9 relative to |attr| + floor — J, Q: floor 1; C and M compared as vectors with the hue, floor 60 (hue is meaningless at the neutral axis; C ∝ t^0.9 amplifies the f32 rounding of a, b ≈ 0 to ≈ 5e-4); s compared as s², floor 6000 (s ∝ t^0.45: at the neutral axis an f32 implementation cannot do better than s ≈ 0.25, i.e. s² ≈ 0.06; measured). UCS: 4e-5 / 1e-12 relative to |value| + 1 (ln(1+x)/0.0228 and (e^x−1)/0.0228 have absolute error ≈ 44 ε). J at the adopted white: 1e-3 / 1e-9 (measured: exactly 100). Measured on the unchanged tree (evidence: raw-error-maxima, max_err_over_tol): every sub-check has ≥ 8× slack in f32 and ≥ 100× in f64, while every tolerance stays ≤ 1e-4 of the attribute range (a wrong constant moves results by ≥ 1e-3).";
+pub const TOL_NOTE: &str = "XYZ is relative to white Y = 1. Round trip: ‖ΔXYZ‖∞ ≤ κ·(rel·‖XYZ‖∞ + abs) with rel = 4e-5 (f32) / 1e-9 (f64) and an absolute floor 2e-9 / 1e-15: the error of x ↦ x^0.42 ↦ x^(1/0.42) is relative to the size of the colour, so near-black colours are held to a tolerance that scales with them plus a floor; κ = Σ|terms|/|Σ terms| of the achromatic response A and of the denominator of t (1 for all-positive cone responses, i.e. for every real colour near sRGB) accounts for cancellation when a cone response is negative; points with κ > 50 or outside the real-valued domain of the published equations (A ≤ 0 or denominator ≤ 0: imaginary stimuli of the XYZ cube) are only required not to panic. Attribute algebra (into_full, interconversion): relative 2e-5 / 1e-12 (multiplications, divisions and square roots only). Forward model vs reference: κ·1e-4 / κ·1e-9 relative to |attr| + floor — J, Q: floor 1; C and M compared as vectors with the hue, floor 80 (hue is meaningless at the neutral axis; C ∝ t^0.9 amplifies the f32 rounding of a, b ≈ 0 to ≈ 7e-4); s compared through α = s²(A_w+4)/(2500c) = C/√(J/100), floor 100 (s ∝ t^0.45: at the neutral axis an f32 implementation has α ≈ 7e-4 of rounding noise, i.e. s ≈ 0.2–0.3; measured). UCS: 4e-5 / 1e-12 relative to |value| + 1 (ln(1+x)/0.0228 and (e^x−1)/0.0228 have absolute error ≈ 44 ε). J at the adopted white: 1e-3 / 1e-9 (measured: exactly 100). Measured on the unchanged tree (evidence: raw-error-maxima, max_err_over_tol): every sub-check has ≥ 8× slack in f32 and ≥ 100× in f64, while every tolerance stays ≤ 1e-4 of the attribute range (a wrong constant moves results by ≥ 1e-3).";
 
 /// One point of the space.
 pub struct Pt<'a, T> {
@@ -183,6 +184,14 @@ pub fn case_json<T: Fl>(sub: &str, pt: &Pt<T>) -> Value {
 fn same<T: Fl>(a: T, b: T) -> bool {
     a.bits64() == b.bits64() || a.to64() == b.to64() || (a.to64().is_nan() && b.to64().is_nan())
 }
+/// the same direction on the hue circle (a carried-through hue may legitimately be renormalised by 360°)
+fn same_angle<T: Fl>(a: T, b: T) -> bool {
+    if same(a, b) {
+        return true;
+    }
+    let d = ((a.to64() - b.to64()) % 360.0 + 540.0) % 360.0 - 180.0;
+    d.abs() <= if T::NAME == "f32" { 1e-3 } else { 1e-9 }
+}
 fn kind(v: &[f64]) -> &'static str {
     if v.iter().any(|x| x.is_nan()) {
         "NaN"
@@ -308,7 +317,7 @@ fn check_partial_eq_full<T: Fl>(cx: &mut Cx<T>, o: &Obs<T>) {
             let (li, ci) = PART_IDX[i];
             let want = [o.full[li], o.full[ci], o.full[2]];
             for (site, got) in [("from_xyz", o.part[i]), ("from_full", o.part_from_full[i])] {
-                let ok = same(got[0], want[0]) && same(got[1], want[1]) && same(got[2], want[2]);
+                let ok = same(got[0], want[0]) && same(got[1], want[1]) && same_angle(got[2], want[2]);
                 cx.exact(Sub::PartialEq, ok, || format!("{}::{site}", PARTIALS[i]), || json!({"observed": v64(&got), "expected (fields of Cam16::from_xyz)": v64(&want), "attributes": [ATTR[li], ATTR[ci], "h"]}));
             }
         }
@@ -335,18 +344,21 @@ fn check_algebra<T: Fl>(cx: &mut Cx<T>, o: &Obs<T>, t: &Tol) {
     let full = to6(o.full);
     for i in 0..6 {
         let g = to6(o.into_full[i]);
+        let (e, k) = attr_err(&g, &full);
+        // the mutual-inverse clause starts from a *correct* full colour: where P1::into_full is already
+        // wrong (reported by into-full), every P2 would fail on the inconsistent input as an echo
+        let g_ok = !exceeds(e, t.alg);
         if cx.on(Sub::IntoFull) {
-            let (e, k) = attr_err(&g, &full);
             cx.num(Sub::IntoFull, "attr-rel", e, t.alg, e, || format!("{}::into_full", PARTIALS[i]), || json!({"attribute": ATTR[k], "observed": fv(&g), "expected (Cam16::from_xyz)": fv(&full)}));
-            cx.exact(Sub::IntoFull, same(o.into_full[i][2], o.full[2]), || format!("{}::into_full/hue", PARTIALS[i]), || json!({"observed": fnum(g[2]), "expected": fnum(full[2])}));
+            cx.exact(Sub::IntoFull, same_angle(o.into_full[i][2], o.full[2]), || format!("{}::into_full/hue", PARTIALS[i]), || json!({"observed": fnum(g[2]), "expected": fnum(full[2])}));
         }
-        if cx.on(Sub::Interconvert) {
+        if cx.on(Sub::Interconvert) && g_ok {
             for j in 0..6 {
                 let h = to6(o.cross[i][j]);
                 let (e, k) = attr_err(&h, &g);
                 // call site = the second partial type (whose from_full→into_full must reproduce the full colour it was made from)
                 cx.num(Sub::Interconvert, "attr-rel", e, t.alg, e, || format!("{}::into_full∘from_full", PARTIALS[j]), || json!({"attribute": ATTR[k], "full colour made by": format!("{}::into_full", PARTIALS[i]), "observed": fv(&h), "expected (the full colour it was made from)": fv(&g)}));
-                cx.exact(Sub::Interconvert, same(o.cross[i][j][2], o.full[2]), || format!("{}::into_full∘from_full/hue", PARTIALS[j]), || json!({"observed": fnum(h[2]), "expected": fnum(full[2])}));
+                cx.exact(Sub::Interconvert, same_angle(o.cross[i][j][2], o.full[2]), || format!("{}::into_full∘from_full/hue", PARTIALS[j]), || json!({"observed": fnum(h[2]), "expected": fnum(full[2])}));
             }
         }
     }
@@ -386,8 +398,10 @@ fn check_forward<T: Fl>(cx: &mut Cx<T>, o: &Obs<T>, t: &Tol, r: &RefCam) {
     cx.num(Sub::Forward, "C·h", g(ec), tl, ec / r.kappa, site, detail);
     let em = vec_dist(p[4], p[2], e[4], e[2]) / (e[4].abs() + FWD_FLOOR_C);
     cx.num(Sub::Forward, "M·h", g(em), tl, em / r.kappa, site, detail);
-    let es = (p[5] * p[5] - e[5] * e[5]).abs() / (e[5] * e[5] + FWD_FLOOR_S2);
-    cx.num(Sub::Forward, "s²", g(es), tl, es / r.kappa, site, detail);
+    // saturation through α = s²(A_w + 4)/(2500 c) (reference parameters): s ∝ α^½ is ill-conditioned at the neutral axis
+    let k = (cx.pt.refp.a_w + 4.0) / (2500.0 * cx.pt.refp.c);
+    let es = (p[5] * p[5] * k - e[5] * e[5] * k).abs() / (e[5] * e[5] * k + FWD_FLOOR_ALPHA);
+    cx.num(Sub::Forward, "s→α", g(es), tl, es / r.kappa, site, detail);
 }
 
 fn check_ucs<T: Cam>(cx: &mut Cx<T>, o: &Obs<T>, t: &Tol) {
@@ -403,11 +417,11 @@ fn check_ucs<T: Cam>(cx: &mut Cx<T>, o: &Obs<T>, t: &Tol) {
     let rel = |a: f64, b: f64| (a - b).abs() / (b.abs() + 1.0);
     let e = rel(uj[0], ej).max(rel(uj[1], em));
     cx.num(Sub::Ucs, "J'M'", e, t.ucs, e, || "Cam16UcsJmh::from(Cam16Jmh)".into(), || json!({"input [J,M,h]": [j, m, h], "observed": fv(&uj), "expected [J', M']": [ej, em]}));
-    cx.exact(Sub::Ucs, same(u.ucs_jmh[2], jmh[2]), || "Cam16UcsJmh::from(Cam16Jmh)/hue".into(), || json!({"observed": fnum(uj[2]), "expected": h}));
+    cx.exact(Sub::Ucs, same_angle(u.ucs_jmh[2], jmh[2]), || "Cam16UcsJmh::from(Cam16Jmh)/hue".into(), || json!({"observed": fnum(uj[2]), "expected": h}));
     let back = to3(u.jmh_back);
     let e = rel(back[0], j).max(rel(back[1], m));
     cx.num(Sub::Ucs, "JM", e, t.ucs, e, || "Cam16Jmh::from(Cam16UcsJmh)".into(), || json!({"observed": fv(&back), "expected [J,M,h]": [j, m, h]}));
-    cx.exact(Sub::Ucs, same(u.jmh_back[2], jmh[2]), || "Cam16Jmh::from(Cam16UcsJmh)/hue".into(), || json!({"observed": fnum(back[2]), "expected": h}));
+    cx.exact(Sub::Ucs, same_angle(u.jmh_back[2], jmh[2]), || "Cam16Jmh::from(Cam16UcsJmh)/hue".into(), || json!({"observed": fnum(back[2]), "expected": h}));
     // rectangular form from palette's own J', M' (so that only this step is measured)
     let (ea, eb) = oracle::ucs_ab(uj[1], uj[2]);
     for (site, jab) in [("Cam16UcsJab::from(Cam16UcsJmh)", to3(u.jab)), ("Cam16UcsJab::from(Cam16Jmh)", to3(u.jab_direct))] {
